@@ -330,6 +330,15 @@ package db
 //@ func (*mergeProcessor).queueComposite
 //@   ensures maphas(mp.queuedComposites, blockCid)
 //@   tags C02
+//@ // the queue is kept ordered by height (a commit is merged after all of its ancestors): the block goes in
+//@ // front of the first queued block that is at least as high, and to the back only when the whole queue
+//@ // was scanned without finding one
+//@ func (*mergeProcessor).queueComposite
+//@   assert before call#1 InsertBefore: arg2 == e && as(arg1, *coreblock.Block) == block && res(GetPriority, 1, 0) >= res(GetPriority, 2, 0)
+//@   assert before call#1 InsertBefore: callarg(GetPriority, 1, 0) == as(e.Value, *coreblock.Block).Delta && callarg(GetPriority, 2, 0) == block.Delta
+//@   assert before call#1 PushBack: as(arg1, *coreblock.Block) == block && e == nil
+//@   ensures called(InsertBefore, 1) || called(PushBack, 1)
+//@   tags C01 C02 C04
 //@ apply ErrFlow: (*mergeProcessor).processBlock, (*mergeProcessor).initCRDTForType, (*mergeProcessor).mergeComposites, (*mergeProcessor).loadComposites, getHeadsAsMergeTarget
 //@
 //@ // ===== C13: schema version / collection identifiers are deterministic functions of the (sorted) set of
